@@ -89,7 +89,7 @@ int rf_build(ref_arena* a, const rfile_t* f, ref_buf* img, ref_pageinfo* pages, 
     ref_chunk_layout* L = ref_alloc(a, sizeof(ref_chunk_layout) * (size_t)(nrg * f->ncols)); int64_t* rows = ref_alloc(a, sizeof(int64_t) * (size_t)nrg);
     for (int g = 0; g < nrg; g++) { rows[g] = f->N;
         for (int c = 0; c < f->ncols; c++) { rf_column(a, f, c, g, &cols[g * f->ncols + c]); ref_chunk_layout* l = &L[g * f->ncols + c];
-            l->codec = f->codec; l->value_encoding = f->enc[c]; l->npages = f->npages[c]; memcpy(l->page_levels, f->page_levels[c], sizeof l->page_levels); l->uniform_page_levels = f->uniform_page[c]; l->level_form = f->level_form; l->index_form = f->index_form; l->index_bw_extra = f->index_bw_extra;
+            l->codec = f->codec; l->value_encoding = f->enc[c]; l->plain_page_mask = f->plain_pages[c]; l->npages = f->npages[c]; memcpy(l->page_levels, f->page_levels[c], sizeof l->page_levels); l->uniform_page_levels = f->uniform_page[c]; l->level_form = f->level_form; l->index_form = f->index_form; l->index_bw_extra = f->index_bw_extra;
             if (c == 0) { int64_t r0 = 0; for (int64_t i = 0; i < cols[g * f->ncols].nlevels; i++) if (cols[g * f->ncols].max_rep == 0 || cols[g * f->ncols].rep[i] == 0) r0++; rows[g] = r0; }
             l->chunk_stats = f->chunk_stats[c]; l->page_stats = f->page_stats[c]; l->crc = f->crc; l->dict_offset_present = f->dict_offset_present; l->data_offset_at_dict = f->data_offset_at_dict; l->v2 = f->v2; l->level_encoding = f->level_encoding; l->absent_levels_bit_packed = f->absent_levels_bit_packed; } }
     ref_write_req rq; memset(&rq, 0, sizeof rq); rq.schema = sc; rq.nschema = ns; rq.nleaves = f->ncols; rq.nrg = nrg; rq.rg_rows = rows; rq.cols = cols; rq.layouts = L; rq.fl = f->fl;
